@@ -1,5 +1,126 @@
-"""Runtime-contract leg: the sidecar clauses evaluated on the real objects under /venv/bin/python (bounded)."""
+"""Bounded runtime leg (DESIGN 8): the executable forms of the properties (rt/props.py) run against the real code under
+/venv/bin/python on the same tree the obligations were generated from.  Two uses:
+
+  * replay_obligation: a failed obligation is turned into a concrete failing input where the bounded search finds one
+    (scopes restricted to the policy module of the failed function);
+  * bounded_leg: stand-in for the modules the deductive leg cannot reach (approximate.py, clusters.py, treebandit.py and
+    NumPy dtype effects); reported in the evidence under `bounded`, never counted as proved.
+
+A failure found here is a concrete input on which the real code disagrees with the property, so reporting it as a
+violation is sound; finding nothing proves nothing.
+"""
+import json
+import os
+import subprocess
+import sys
+import tempfile
+
+ROOT = os.path.dirname(os.path.dirname(os.path.abspath(__file__)))
+RT_PYTHON = os.environ.get('PYVC_RT_PYTHON', '/venv/bin/python')
+OUT_OF_REACH = 'approximate,clusters,treebandit'
+HAS_RT = {'C01', 'C02', 'C03', 'C04', 'C05', 'C06', 'C07', 'C08', 'C09', 'C10', 'C11', 'C12', 'C13', 'C14', 'C17', 'C18',
+          'C19', 'C20'}
+
+
+def run_rt(tree, prop, focus=None, budget=60, seed=0, tier='quick', keep_going=False):
+    """one run of rt.run in a child interpreter; returns its JSON result (with 'error' on a harness crash)"""
+    with tempfile.NamedTemporaryFile('r', suffix='.json', delete=False) as f:
+        out = f.name
+    env = dict(os.environ)
+    env['PYTHONPATH'] = tree + os.pathsep + ROOT
+    env.setdefault('OMP_NUM_THREADS', '1')
+    env.setdefault('OPENBLAS_NUM_THREADS', '1')
+    env.setdefault('MKL_NUM_THREADS', '1')
+    env['PYTHONDONTWRITEBYTECODE'] = '1'
+    cmd = [RT_PYTHON, '-m', 'rt.run', '--prop', prop, '--budget', str(budget), '--seed', str(seed), '--tier', tier,
+           '--out', out]
+    if focus:
+        cmd += ['--focus', focus]
+    if keep_going:
+        cmd += ['--all']
+    try:
+        p = subprocess.run(cmd, cwd=ROOT, env=env, capture_output=True, text=True, timeout=budget * 4 + 120)
+        try:
+            res = json.load(open(out))
+        except Exception:       # noqa
+            res = {'property': prop, 'cases': 0, 'failures': [], 'error': (p.stderr or p.stdout or '')[-2000:]}
+    except subprocess.TimeoutExpired:
+        res = {'property': prop, 'cases': 0, 'failures': [], 'error': 'timeout', 'exhausted': False}
+    finally:
+        try:
+            os.unlink(out)
+        except OSError:
+            pass
+    res['cmd'] = 'PYTHONPATH=<tree>:/verif %s' % ' '.join(cmd[:-2])
+    return res
+
+
+def module_of(func):
+    return (func or '').split('.')[0]
+
+
+def known_rt(known, prop, failure):
+    """the known finding (if any) that lists this runtime failure: same property, same policy combination"""
+    c = failure.get('case') or {}
+    lp = (c.get('lp') or [None])[0]
+    nbh = (c.get('np') or [None])[0] if c.get('np') else None
+    for f in known.get('findings', []):
+        for pat in f.get('rt', []):
+            if pat.get('property') not in (None, prop):
+                continue
+            if pat.get('lp') not in (None, lp) or ('np' in pat and pat.get('np') != nbh):
+                continue
+            if pat.get('what') and pat['what'] not in failure.get('what', ''):
+                continue
+            return f
+    return None
 
 
 def replay_obligation(eng, prop, record, seed):
+    """bounded search for a failing input of `prop` in the module of the failed obligation"""
+    if prop not in HAS_RT:
+        return None
+    mod = module_of(record.get('func'))
+    focus = None if mod in ('mab', 'base_mab', 'utils', '') or mod.startswith('lemma_') else mod
+    res = run_rt(eng.repo.root, prop, focus=focus, budget=int(os.environ.get('PYVC_REPLAY_BUDGET', '90')), seed=seed,
+                 keep_going=True)
+    known = _known()
+    for f in res.get('failures', []):
+        if known_rt(known, prop, f) is None:
+            f['replay'] = 'PYTHONPATH=<tree>:/verif %s -m rt.replay <this file>' % RT_PYTHON
+            f['searched'] = {'cases': res.get('cases'), 'focus': focus, 'seconds': res.get('seconds')}
+            return f
     return None
+
+
+def _known():
+    try:
+        return json.load(open(os.path.join(ROOT, 'known_findings.json')))
+    except Exception:       # noqa
+        return {'findings': []}
+
+
+def bounded_leg(eng, prop, tier, seed):
+    """returns (summary for the evidence, new failures, [(finding, failure)] known hits, harness error or None)"""
+    if prop not in HAS_RT:
+        return None, [], [], None
+    quick = tier != 'thorough'
+    focus = None        # every policy module: the enumeration is cheap, and dtype / container effects are out of the
+    #                     prover's reach in every module (A1, A4)
+    budget = int(os.environ.get('PYVC_RT_BUDGET', '90' if quick else '900'))
+    res = run_rt(eng.repo.root, prop, focus=focus, budget=budget, seed=seed, tier=tier, keep_going=True)
+    known = _known()
+    new, hits = [], []
+    for f in res.get('failures', []):
+        k = known_rt(known, prop, f)
+        if k is None:
+            new.append(f)
+        else:
+            hits.append((k, f))
+    summary = {'function': 'public API over ' + (focus or 'every policy module') + ' (rt/props.py check_%s)' % prop,
+               'bound': 'enumerated small scopes: 3-5 arms, <= 12 rows per batch, <= 3 batches, integer grid contexts in '
+                        '[-3,3]^2, the listed policy combinations, seed %d; wall budget %ds%s'
+                        % (seed, budget, '' if res.get('exhausted', True) else ' (budget reached before the enumeration ended)'),
+               'cases': res.get('cases', 0), 'seconds': res.get('seconds'), 'failures': len(res.get('failures', [])),
+               'label': 'bounded', 'cmd': res.get('cmd')}
+    return summary, new, hits, res.get('error')
